@@ -683,3 +683,134 @@ func init() {
 		return out, errs
 	}
 }
+
+// static kind "flag-shorthands": args.pkg = package of the cobra command tree, args.root = name of
+// the root command variable. Obligation: no flag name or one-letter shorthand registered on a
+// sub-command's own flag set collides with a persistent flag of the root command, nor with another
+// flag of the same set (pflag panics on such a collision when the command is executed: the command
+// can then never run, whatever its arguments).
+func init() {
+	staticKinds["flag-shorthands"] = func(eng *Engine, id string, s StaticSpec) ([]*StaticResult, []string) {
+		type flagReg struct{ name, short, pos string }
+		local := map[string][]flagReg{}      // command variable -> own flags
+		persistent := map[string][]flagReg{} // command variable -> persistent flags
+		var unknown []string
+		pkgName := s.Args["pkg"]
+		for _, fn := range eng.allRepoFunctions() {
+			pk, _ := fnKey(fn)
+			if !strings.HasSuffix(pk, "/"+pkgName) {
+				continue
+			}
+			for _, b := range fn.Blocks {
+				for _, in := range b.Instrs {
+					c, ok := in.(*ssa.Call)
+					if !ok {
+						continue
+					}
+					callee := c.Common().StaticCallee()
+					if callee == nil || callee.Pkg == nil || callee.Pkg.Pkg.Path() != "github.com/spf13/pflag" || callee.Signature.Recv() == nil {
+						continue
+					}
+					m := callee.Name()
+					if !strings.HasSuffix(m, "P") && !strings.HasPrefix(m, "Bool") && !strings.HasPrefix(m, "String") && !strings.HasPrefix(m, "Int") && !strings.HasPrefix(m, "Float") && !strings.HasPrefix(m, "Duration") && m != "Var" {
+						continue
+					}
+					args := c.Common().Args
+					// receiver: Flags() / PersistentFlags() of a command variable
+					rc, ok := resolveNaive(args[0]).(*ssa.Call)
+					if !ok || rc.Common().StaticCallee() == nil {
+						continue
+					}
+					which := rc.Common().StaticCallee().Name()
+					if which != "Flags" && which != "PersistentFlags" {
+						continue
+					}
+					g, isG := rootGlobal(resolveNaive(rc.Common().Args[0]))
+					cmdName := "?"
+					if isG {
+						cmdName = g.Name()
+					}
+					ni, si := 1, 2
+					if m == "VarP" {
+						ni, si = 2, 3
+					} else if m == "Var" {
+						ni, si = 2, -1
+					}
+					if !strings.HasSuffix(m, "P") {
+						si = -1
+					}
+					strConst := func(i int) (string, bool) {
+						if i < 0 || i >= len(args) {
+							return "", i < 0
+						}
+						if k, ok := resolveNaive(args[i]).(*ssa.Const); ok && k.Value != nil && k.Value.Kind() == constant.String {
+							return constant.StringVal(k.Value), true
+						}
+						return "", false
+					}
+					name, ok1 := strConst(ni)
+					short, ok2 := strConst(si)
+					pos := shortPos(eng.fset.Position(c.Pos()).String())
+					if !ok1 || !ok2 || !isG {
+						unknown = append(unknown, fmt.Sprintf("flag registration at %s is not a constant name / shorthand on a command variable", pos))
+						continue
+					}
+					r := flagReg{name, short, pos}
+					if which == "Flags" {
+						local[cmdName] = append(local[cmdName], r)
+					} else {
+						persistent[cmdName] = append(persistent[cmdName], r)
+					}
+				}
+			}
+		}
+		root := s.Args["root"]
+		var bad []string
+		n := 0
+		check := func(cmd string, a flagReg, b flagReg, what string) {
+			if a.name == b.name {
+				// the same name on a sub-command shadows the persistent flag (pflag skips it when
+				// merging); within one flag set it is a redefinition
+				if strings.HasPrefix(what, "is registered twice") {
+					bad = append(bad, fmt.Sprintf("%s: flag --%s (%s) %s --%s (%s)", cmd, a.name, a.pos, what, b.name, b.pos))
+				}
+			} else if a.short != "" && a.short == b.short {
+				bad = append(bad, fmt.Sprintf("%s: shorthand -%s of --%s (%s) %s -%s of --%s (%s)", cmd, a.short, a.name, a.pos, what, b.short, b.name, b.pos))
+			}
+		}
+		var cmds []string
+		for c := range local {
+			cmds = append(cmds, c)
+		}
+		sort.Strings(cmds)
+		for _, cmd := range cmds {
+			fl := local[cmd]
+			for i := range fl {
+				n++
+				for j := i + 1; j < len(fl); j++ {
+					check(cmd, fl[i], fl[j], "is registered twice with")
+				}
+				if cmd != root {
+					for _, p := range persistent[root] {
+						check(cmd, fl[i], p, "collides with the persistent")
+					}
+				}
+			}
+		}
+		pf := persistent[root]
+		for i := range pf {
+			n++
+			for j := i + 1; j < len(pf); j++ {
+				check(root, pf[i], pf[j], "is registered twice with")
+			}
+		}
+		bad = append(bad, unknown...)
+		sort.Strings(bad)
+		r := &StaticResult{Name: "flag-shorthands " + pkgName + " / no flag collides with a persistent flag", Kind: "flag-shorthands",
+			Text: fmt.Sprintf("none of the %d flags registered in package %s collides in name or one-letter shorthand with a persistent flag of %s or with a flag of its own set (a collision makes pflag panic when the command runs)", n, pkgName, root), OK: len(bad) == 0 && n > 0}
+		if len(bad) > 0 {
+			r.Detail = strings.Join(bad, "; ")
+		}
+		return []*StaticResult{r}, nil
+	}
+}
